@@ -4,6 +4,8 @@
 //   stdout: one line per thread "t<i> <fnv hash of its captured output> <lines>" and
 //           "solo <same for the workload run alone on the main thread first>"
 #include "engine.h"
+#include <morfuse/Container/set.h>
+#include <morfuse/Common/str.h>
 #include <atomic>
 #include <cstdio>
 #include <thread>
@@ -22,6 +24,11 @@ static std::string workload(int k)
     s += "  local.names[\"k\" + local.i] = \"v\" + local.i\n";
     s += "}\n";
     s += "println \"sum \" local.sum\n";
+    // value conversions that touch library-wide constants: NIL, numbers, vectors to text
+    s += "for (local.j = 0; local.j < 40; local.j++) {\n";
+    s += "  local.t = \"\" + local.never_set + local.j + ( 1 2 3 ) + 1.5\n";
+    s += "  println local.never_set \" \" local.t\n";
+    s += "}\n";
     s += "thread other " + std::to_string(k) + "\n";
     s += "wait 0.002\n";
     s += "println \"after wait\"\n";
@@ -39,6 +46,32 @@ static std::string workload(int k)
     s += "println \"other done\"\n";
     s += "end\n";
     return s;
+}
+
+// pool churn: every thread keeps its own con::map<str, str>, but all maps draw their entries
+// from ONE process-wide pool (BlockAllocSafe_set<Entry<str, str>>).  Blocks hold 256 entries:
+// with > 256 live entries per thread, removals hit full blocks (the freed slot is then the
+// next one handed out, possibly to another thread) while the others allocate.
+static std::string poolChurn(int idx, int iters)
+{
+    con::map<str, str> m;
+    auto key = [&](int i) { return str(("k" + std::to_string(idx) + "_" + std::to_string(i)).c_str()); };
+    auto val = [&](int i) { return str(("value-of-" + std::to_string(idx) + "-" + std::to_string(i) + "-padding-padding-padding").c_str()); };
+    const int base = 300 + 7 * (idx % 5);
+    for (int i = 0; i < base; ++i) m[key(i)] = val(i);
+    uint64_t bad = 0;
+    for (int it = 0; it < iters; ++it) {
+        const int victim = it % base;
+        m.remove(key(victim + (it / base) * base));
+        m[key(victim + (it / base + 1) * base)] = val(victim + (it / base + 1) * base);
+        const int probe = (it * 7 + 3) % base;
+        for (int gen = it / base + 1; gen >= 0; --gen) {
+            const str* v = m.find(key(probe + gen * base));
+            if (v) { if (!(*v == val(probe + gen * base))) bad++; break; }
+            if (gen == 0) bad++;
+        }
+    }
+    return "churn size=" + std::to_string(m.size()) + " bad=" + std::to_string(bad) + "\n";
 }
 
 static uint64_t fnv(const std::string& s) { uint64_t h = 1469598103934665603ull; for (unsigned char c : s) { h ^= c; h *= 1099511628211ull; } return h; }
@@ -63,6 +96,7 @@ static std::string runOne(int idx, int rounds, unsigned seed)
         all += "idle=" + std::to_string(e.ctx->IsIdle() ? 1 : 0) + " warn=" + std::to_string(e.io.warn.str().size() ? 1 : 0) + "\n";
         e.director().Reset();
     }
+    all += poolChurn(idx, 4000 * rounds);
     return all;
 }
 
